@@ -5,6 +5,7 @@ import (
 	"math/big"
 	"reflect"
 	"sort"
+	"strings"
 	"time"
 	"unicode/utf16"
 	"unicode/utf8"
@@ -25,6 +26,7 @@ type Val struct {
 	Arcs   []int  `json:"arcs,omitempty"`
 	S      string `json:"s,omitempty"`
 	Wire   int    `json:"wire,omitempty"` // alternative universal string tag on the wire (default-typed strings)
+	Nul    int    `json:"nul,omitempty"`  // BMPString: trailing U+0000 code units appended on the wire
 	T      int64  `json:"t,omitempty"`    // unix seconds
 	RC     int    `json:"rc,omitempty"`   // RawValue class 0..3
 	RT     int    `json:"rt,omitempty"`   // RawValue tag number
@@ -605,6 +607,12 @@ func (c *encCtx) strBody(td *TD, v *Val, m mctx, gv reflect.Value, implicit bool
 				content = nil
 				for _, u := range utf16.Encode([]rune(s)) {
 					content = append(content, byte(u>>8), byte(u))
+				}
+				if v.Nul > 0 {
+					// a single trailing U+0000 is a terminator and is dropped; further ones are content
+					content = append(content, make([]byte, 2*v.Nul)...)
+					gv.SetString(s + strings.Repeat("\x00", v.Nul-1))
+					c.cl("str:bmp-trailing-nul")
 				}
 				for _, r := range s {
 					if r > 0xffff || r == 0xfffe || r == 0xffff || (r >= 0xfdd0 && r <= 0xfdef) || (r >= 0xd800 && r <= 0xdfff) || r == 0 {
